@@ -403,6 +403,7 @@ func run(seed uint64, tier, outDir string) error {
 		"VERSION \"a\" NS_ : CM_ FILTER 5 \"x\" ; BS_: BU_: a\x00 trailing garbage",
 	}
 	st.outsideStream()
+	st.strFieldsStream()
 	for _, h := range hand {
 		seeds = append(seeds, []byte(h))
 		st.checkText("hand", []byte(h), false, true)
